@@ -9,9 +9,9 @@ from typing import Any
 from ..absint import Event
 from ..ctx import engine
 from ..model import AnalysisError, FuncInfo, Program
-from ..paths import PEvent, SymPath, show, subterms
+from ..paths import PEvent, SymPath, contains, show, subterms
 from ..report import Report
-from .common import RUNNERS, runner_raises
+from .common import RUNNERS, path_where, runner_raises
 from .runner_flow import RunnerClient, flag1, run_runners, short_witness
 
 # ---------------------------------------------------------------------------
@@ -568,6 +568,9 @@ def run(rep: Report, prog: Program, tier: str) -> None:
     rep.assumptions = ["value computations live in the shared core (state.py, retry_helpers.py, logic.py): one implementation"]
     rep.not_decided = ["agreement of values flowing through identical effect sequences beyond symbolic identity of the terms"]
     forwarding(rep, prog)
+    rep.rule("R12.5", "configuration written on a sugar object (RetryPolicy / AsyncRetryPolicy attribute assignment) reaches the wrapped retry component: forwarded iff the component has an attribute of that name (existence, not current value); reads are served by the component")
+    sugar_setattr(rep, "R12.5", prog)
+    rep.floor("R12.5", 8)
     twins(rep, prog)
     call_vs_execute(rep, prog, tier)
     # Policy level: call() and execute() make the same breaker record for the same ending
@@ -576,3 +579,69 @@ def run(rep: Report, prog: Program, tier: str) -> None:
     from .c09 import record_by_outcome
 
     record_by_outcome(rep, "R12.4", "R12.4b", prog)
+
+
+def sugar_setattr(rep: Report, rid: str, prog: Program) -> None:
+    """RetryPolicy / AsyncRetryPolicy.__setattr__: configuration written on the sugar object reaches the wrapped retry
+    component whenever that component has an attribute of this name - decided by existence alone (hasattr), never by
+    the attribute's current value (budget, sleep, before_sleep, ... are None by default)"""
+    for cls in ("RetryPolicy", "AsyncRetryPolicy"):
+        fi = prog.func(f"redress.policy.wrappers:{cls}.__setattr__")
+        rep.analysed(fi.qual)
+        pos = fi.positional_params()
+        if len(pos) != 3:
+            raise AnalysisError(f"{fi.qual}: expected (self, name, value)")
+        S, N, V = (("param", x) for x in pos)
+        kinds: dict[str, int] = {"forward": 0, "local": 0, "reject": 0}
+        for p in engine(prog).paths(fi):
+            imp = [e for e in p.calls(pure=False)]
+            construct = "|".join(p.describe()[-3:])[:110]
+            rep.instance(rid, f"{cls}.__setattr__|{construct}")
+            problem = None
+            fwd = [e for e in imp if e.lib() == "builtins.setattr"]
+            loc = [e for e in imp if (e.lib() or "").endswith("object.__setattr__")]
+            R = fwd[0].args[0] if fwd and fwd[0].args else None
+            if p.exit[0] == "raise":
+                kinds["reject"] += 1
+                if imp or p.exit[1] != "AttributeError":
+                    problem = f"rejecting path has effects / raises {p.exit[1]}"
+            elif fwd:
+                kinds["forward"] += 1
+                if len(imp) != 1 or fwd[0].args != [R, N, V] or not (isinstance(R, tuple) and R[0] == "attr" and R[2] == "retry"):
+                    problem = f"forwarding path must be exactly setattr(<policy>.retry, name, value); found {[e.label + str([show(a) for a in e.args]) for e in imp]}"
+                elif not any(a == ("pure", "hasattr", (R, N), ()) and pol for a, pol, _ in p.conds):
+                    problem = "the write is forwarded without `hasattr(retry, name)` being true on that path"
+            elif loc:
+                kinds["local"] += 1
+                if len(imp) != 1 or loc[0].args != [S, N, V]:
+                    problem = f"local path must be exactly object.__setattr__(self, name, value); found {[e.label for e in imp]}"
+            else:
+                problem = "the attribute write is dropped"
+            if problem is None:
+                for a, pol, _ in p.conds:
+                    ok = (
+                        (a[0] == "cmp" and a[1] in ("==", "in") and a[2] == N and a[3][0] in ("const", "set", "tuple"))
+                        or (a[0] == "cmp" and a[1] == "is" and a[3] == ("const", None) and not contains(a[2], N))
+                        or (a[0] == "pure" and a[1] == "hasattr" and len(a[2]) == 2 and a[2][1] == N and isinstance(a[2][0], tuple) and a[2][0][0] == "attr" and a[2][0][2] == "retry")
+                    )
+                    if not ok:
+                        problem = f"where the write goes depends on `{show(a)}`: it must depend only on the name and on whether the retry component has such an attribute (hasattr), not on the attribute's current value"
+                        break
+            if problem:
+                rep.fail(rid, f"{cls}.__setattr__|{problem[:50]}", f"{fi.qual}: {problem}", where=path_where(prog, fi.qual, p), function=fi.qual, path=p.describe())
+            else:
+                rep.ok(rid)
+        rep.instance(rid, f"{cls}.__setattr__|rows")
+        if all(kinds.values()):
+            rep.ok(rid)
+        else:
+            rep.fail(rid, f"{cls}.__setattr__|rows", f"{fi.qual}: expected a forwarding, a local and a rejecting row; found {kinds}", where=fi.where(), function=fi.qual)
+        ga = prog.func(f"redress.policy.wrappers:{cls}.__getattr__")
+        for p in engine(prog).paths(ga):
+            rep.instance(rid, f"{cls}.__getattr__")
+            gp = ga.positional_params()
+            r = p.exit[1] if p.exit[0] == "return" else None
+            if r is not None and r[0] == "pure" and r[1] == "getattr" and len(r[2]) == 2 and r[2][1] == ("param", gp[1]) and "retry" in show(r[2][0]):
+                rep.ok(rid)
+            else:
+                rep.fail(rid, f"{cls}.__getattr__", f"{ga.qual}: attribute reads must be served by the retry component (getattr(self.retry, name)); found {show(r) if r else p.exit}", where=ga.where(), function=ga.qual)
